@@ -85,4 +85,163 @@ theorem search_first (toks : List Tok) (s : Bytes) (h : matchHere toks s true = 
   | nil => simpa [searchFrom] using h
   | cons c r => simp [searchFrom, h]
 
+/-! ### The negative direction: nothing else matches -/
+
+theorem plainByte_not_sep (b : Nat) (h : plainByte b = true) : isSepByte b = false := by
+  unfold plainByte at h
+  unfold isSepByte
+  simp only [Bool.or_eq_true] at h
+  rcases h with ((h | h) | h) | h <;> simp [h]
+
+/-- a `||…` pattern can only match at the very start of the URL -/
+theorem searchFrom_startURL (ts : List Tok) (s : Bytes) :
+    searchFrom (.startURL :: ts) s false = false := by
+  induction s with
+  | nil => simp [searchFrom, matchHere]
+  | cons c r ih => simp [searchFrom, matchHere, ih]
+
+theorem searchFrom_startURL_eq (ts : List Tok) (s : Bytes) :
+    searchFrom (.startURL :: ts) s true = matchHere (.startURL :: ts) s true := by
+  cases s with
+  | nil => rfl
+  | cons c r => simp [searchFrom, searchFrom_startURL]
+
+theorem lowerB_eq_of_foldEq {a b : Nat} : foldEq a b = true ↔ lowerB a = lowerB b := by
+  unfold foldEq; simp
+
+/-- literals followed by a separator: a case-insensitive copy of the literals,
+then the end of the subject or a separator byte -/
+theorem lits_sep_iff (d x : Bytes) (st : Bool) :
+    matchHere (d.map Tok.lit ++ [Tok.sep]) x st = true ↔
+      ∃ x1 y, x = x1 ++ y ∧ lower x1 = lower d ∧ (y = [] ∨ ∃ c r, y = c :: r ∧ isSepByte c = true) := by
+  induction d generalizing x st with
+  | nil =>
+    simp only [List.map_nil, List.nil_append]
+    cases x with
+    | nil =>
+      simp only [matchHere]
+      constructor
+      · intro _; exact ⟨[], [], rfl, rfl, Or.inl rfl⟩
+      · intro _; trivial
+    | cons c r =>
+      simp only [matchHere, Bool.and_true]
+      constructor
+      · intro h; exact ⟨[], c :: r, rfl, rfl, Or.inr ⟨c, r, rfl, h⟩⟩
+      · rintro ⟨x1, y, hxy, hl, hy⟩
+        have hx1 : x1 = [] := by
+          have : (lower x1).length = 0 := by rw [hl]; rfl
+          unfold lower at this
+          simpa using this
+        subst hx1
+        simp only [List.nil_append] at hxy
+        subst hxy
+        rcases hy with hy | ⟨c', r', hy, hs⟩
+        · cases hy
+        · cases hy; exact hs
+  | cons b rest ih =>
+    simp only [List.map_cons, List.cons_append]
+    cases x with
+    | nil =>
+      simp only [matchHere]
+      constructor
+      · intro h; cases h
+      · rintro ⟨x1, y, hxy, hl, _⟩
+        have : x1 = [] := by
+          cases x1 with
+          | nil => rfl
+          | cons _ _ => simp at hxy
+        subst this
+        simp [lower] at hl
+    | cons c r =>
+      simp only [matchHere, Bool.and_eq_true]
+      constructor
+      · rintro ⟨hf, hm⟩
+        obtain ⟨x1, y, hxy, hl, hy⟩ := (ih r false).mp hm
+        refine ⟨c :: x1, y, by simp [hxy], ?_, hy⟩
+        have := lowerB_eq_of_foldEq.mp hf
+        simp only [lower, List.map_cons] at hl ⊢
+        rw [hl, this]
+      · rintro ⟨x1, y, hxy, hl, hy⟩
+        cases x1 with
+        | nil => simp [lower] at hl
+        | cons c' x1' =>
+          simp only [List.cons_append, List.cons.injEq] at hxy
+          obtain ⟨hc, hr⟩ := hxy
+          subst hc
+          simp only [lower, List.map_cons, List.cons.injEq] at hl
+          refine ⟨lowerB_eq_of_foldEq.mpr hl.1.symm, (ih r false).mpr ⟨x1', y, hr, ?_, hy⟩⟩
+          simpa [lower] using hl.2
+
+theorem all_append_left {p : Nat → Bool} {a b : Bytes} (h : (a ++ b).all p = true) : b.all p = true := by
+  rw [List.all_append] at h
+  simp only [Bool.and_eq_true] at h
+  exact h.2
+
+/-- for a subject made of host-name bytes the separator can only be the end -/
+theorem lits_sep_plain (d x : Bytes) (st : Bool) (hx : x.all plainByte = true) :
+    matchHere (d.map Tok.lit ++ [Tok.sep]) x st = true ↔ lower x = lower d := by
+  rw [lits_sep_iff]
+  constructor
+  · rintro ⟨x1, y, hxy, hl, hy⟩
+    rcases hy with hy | ⟨c, r, hy, hs⟩
+    · subst hy; simp at hxy; rw [hxy]; exact hl
+    · exfalso
+      subst hy
+      rw [hxy] at hx
+      have := all_append_left hx
+      simp only [List.all_cons, Bool.and_eq_true] at this
+      rw [plainByte_not_sep c this.1] at hs
+      cases hs
+  · intro h; exact ⟨x, [], by simp, h, Or.inl rfl⟩
+
+/-- what `([a-z0-9-_.]+\.)?` can leave over -/
+theorem afterHostPrefix_iff (s r : Bytes) (seen : Bool) :
+    r ∈ afterHostPrefix s seen ↔
+      ∃ p, s = p ++ dot :: r ∧ p.all isURLHostByte = true ∧ (p ≠ [] ∨ seen = true) := by
+  induction s generalizing seen with
+  | nil =>
+    simp only [afterHostPrefix, List.not_mem_nil, false_iff]
+    rintro ⟨p, hp, _⟩
+    cases p <;> simp at hp
+  | cons b rest ih =>
+    unfold afterHostPrefix
+    cases hb : isURLHostByte b
+    · simp only [Bool.not_false, if_true, List.not_mem_nil, false_iff]
+      rintro ⟨p, hp, hall, hne⟩
+      cases p with
+      | nil =>
+        simp only [List.nil_append, List.cons.injEq] at hp
+        rw [hp.1] at hb
+        simp [isURLHostByte, dot] at hb
+      | cons c p' =>
+        simp only [List.cons_append, List.cons.injEq] at hp
+        simp only [List.all_cons, Bool.and_eq_true] at hall
+        rw [← hp.1, hb] at hall
+        cases hall.1
+    · simp only [Bool.not_true, Bool.false_eq_true, if_false, List.mem_append]
+      constructor
+      · rintro (h | h)
+        · by_cases hc : b = dot ∧ seen = true
+          · rw [if_pos hc] at h
+            simp only [List.mem_singleton] at h
+            subst h
+            exact ⟨[], by simp [hc.1], rfl, Or.inr hc.2⟩
+          · rw [if_neg hc] at h; cases h
+        · obtain ⟨p, hp, hall, _⟩ := (ih true).mp h
+          exact ⟨b :: p, by simp [hp], by simp [hb, hall], Or.inl (by simp)⟩
+      · rintro ⟨p, hp, hall, hne⟩
+        cases p with
+        | nil =>
+          simp only [List.nil_append, List.cons.injEq] at hp
+          rcases hne with hne | hne
+          · exact absurd rfl hne
+          · left
+            rw [if_pos ⟨hp.1, hne⟩, hp.2]
+            exact List.mem_singleton.mpr rfl
+        | cons c p' =>
+          simp only [List.cons_append, List.cons.injEq] at hp
+          simp only [List.all_cons, Bool.and_eq_true] at hall
+          right
+          exact (ih true).mpr ⟨p', hp.2, hall.2, Or.inr rfl⟩
+
 end AGH.Filter
